@@ -14,7 +14,7 @@ weak order (`WeakOrd`: the harness' external priority tables are of this kind), 
 -/
 import TlxVerif.Proofs.C13DAry
 import TlxVerif.Proofs.C13Addr
-import TlxVerif.Proofs.C13Radix
+import TlxVerif.Proofs.C13RadixHeap
 namespace TlxVerif.C13
 
 /-- heap order of `heap_` (interface level) -/
@@ -542,8 +542,10 @@ the rank is order preserving and invertible; the bucket function (as written in 
 the fix of the 8/16-bit promotion defect) puts exactly the keys equal to the insertion limit into
 bucket 0, is monotone in the key, gives every bucket of the first row a single key, keeps the bucket
 of every key of a later bucket when the limit is raised to a key of an earlier bucket, and sends
-every key of the reorganised bucket to a strictly earlier bucket. These are the facts the
-`reorganize_()` argument rests on. -/
+every key of the reorganised bucket to a strictly earlier bucket. On top of these
+(`Proofs/C13RadixHeap.lean`: invariant `RInv`, `insert_spec`, `redistribute_spec`, `reorganize_spec`,
+`push/top/pop/swap/peak_spec`; `Proofs/C13BitArr.lean`: `find_lsb` of the two-level bit array is the
+least set index) the state machine is proved: `radix_heap_correct` at the end of this file. -/
 
 /-- **IntegerRank is order preserving** -/
 theorem radix_rank_order (c : RCfg) (hw : 0 < c.w) (a b : BitVec c.w) :
@@ -595,7 +597,7 @@ example : rankOfInt ⟨16, true, 3⟩ (BitVec.ofInt 16 (-32768)) = 0#16 ∧
     rankOfInt ⟨16, true, 3⟩ (BitVec.ofInt 16 32767) = 0xFFFF#16 ∧
     bucketOf ⟨16, true, 3⟩ 0x8009#16 0x8000#16 = 8 := by decide
 
-/-! #### the radix heap as a state machine (statement only) -/
+/-! #### the radix heap as a state machine -/
 
 inductive ROp (c : RCfg) where
   | push (k : BitVec c.w) (payload : Nat) | top | pop | swap | peak | clear
@@ -624,10 +626,82 @@ def RadixRuns (c : RCfg) : RH c → Option (BitVec c.w) → List (RVal c.w) → 
     ref ≠ [] → ∃ k v, h.peakTopKey = some k ∧ IsMin c ref v ∧ v.1 = k ∧ RadixRuns c h fr ref ops
   | h, _, _, .clear :: ops => RadixRuns c h.clear none [] ops
 
-/-- the statement that is NOT proved: every monotone history runs correctly -/
-def radix_heap_statement : Prop :=
-  ∀ (c : RCfg), 0 < c.rb → c.rb ≤ 6 → 0 < c.w → c.w ≤ 64 →
-    ∀ ops : List (ROp c), RadixRuns c (RH.init c) none [] ops
--- OPEN: radix_heap_statement — the invariant of RH (every element sits in bucketOf(rank, limit), mins_/filled_ describe the buckets, nothing is stored before current_bucket_) and its preservation by reorganize_() are not formalised; the bucket-function lemmas it needs (radix_bucket_zero/mono/row0/stable/redistribute) and the rank theorems are proved above; the two-level BitArray (find_lsb = least set index) and the state machine itself are covered by the correspondence only
+private theorem perm_foldl_erase {α : Type} [BEq α] [LawfulBEq α] (l r ref : List α) (h : (l ++ r).Perm ref) :
+    r.Perm (l.foldl List.erase ref) := by
+  induction l generalizing ref with
+  | nil => simpa using h
+  | cons x l' ih =>
+    simp only [List.foldl_cons]
+    apply ih
+    have hx : x ∈ ref := h.subset (by simp)
+    have h1 : (x :: (l' ++ r)).Perm (x :: ref.erase x) := h.trans (List.perm_cons_erase hx)
+    exact (List.perm_cons x).mp h1
+
+/-- **every monotone history of the radix heap runs correctly**, from any state satisfying the
+invariant `RInv` (bucket placement, `mins_`, `filled_`, nothing before `current_bucket_`): no
+operation fails, `top/pop/swap_top_bucket/peak_top_key` report stored elements of minimal rank, the
+stored multiset and `size_` follow the reference -/
+theorem radix_runs (c : RCfg) (hrb : 0 < c.rb) (hrb6 : c.rb ≤ 6) (hle : c.rb ≤ c.w) (hw : c.w ≤ 64)
+    (ops : List (ROp c)) (h : RH c) (fr : Option (BitVec c.w)) (ref : List (RVal c.w))
+    (hi : RInv c h fr) (hp : h.contents.Perm ref) : RadixRuns c h fr ref ops := by
+  induction ops generalizing h fr ref with
+  | nil =>
+    simp only [RadixRuns]
+    rw [hi.cnt, hp.length_eq]
+  | cons op ops ih =>
+    have hne : ref ≠ [] → h.contents ≠ [] := by
+      intro hr e; rw [e] at hp; exact hr (by simpa using hp.symm)
+    cases op with
+    | push k p =>
+      simp only [RadixRuns]
+      intro hfr
+      obtain ⟨h', idx, e1, e2, e3⟩ := push_spec hrb h fr hi (k, p) hfr
+      exact ⟨h', idx, e1, ih h' fr _ e2 (e3.trans (List.Perm.cons _ hp))⟩
+    | top =>
+      simp only [RadixRuns]
+      intro hr
+      obtain ⟨h', v, e1, e2, e3, e4, e5⟩ := top_spec hrb hle h fr hi (hne hr)
+      have hp' : h'.contents.Perm ref := e3.trans hp
+      exact ⟨h', v, e1, ⟨hp'.subset e4, fun u hu => e5 u (hp'.symm.subset hu)⟩, ih h' _ ref e2 hp'⟩
+    | pop =>
+      simp only [RadixRuns]
+      intro hr
+      obtain ⟨h', v, e1, e2, e3, e4⟩ := pop_spec hrb hle h fr hi (hne hr)
+      have hv : v ∈ ref := hp.subset (e3.symm.subset (by simp))
+      refine ⟨h', v, e1, ⟨hv, fun u hu => e4 u (hp.symm.subset hu)⟩, ih h' _ _ e2 ?_⟩
+      have h1 : (v :: h'.contents).Perm (v :: ref.erase v) := (e3.symm.trans hp).trans (List.perm_cons_erase hv)
+      exact (List.perm_cons v).mp h1
+    | swap =>
+      simp only [RadixRuns]
+      intro hr
+      obtain ⟨h', b, v, e1, e2, e3, e4, e5⟩ := swap_spec hrb hle h fr hi (hne hr)
+      have hp' : (b.toList ++ h'.contents).Perm ref := e4.symm.trans hp
+      refine ⟨h', b, v, e1, e2, ?_, ih h' _ _ e3 (perm_foldl_erase _ _ _ hp')⟩
+      intro u hu
+      exact ⟨hp'.subset (List.mem_append_left _ (Array.mem_toList_iff.mpr hu)),
+        fun w hw' => e5 u hu w (hp.symm.subset hw')⟩
+    | peak =>
+      simp only [RadixRuns]
+      intro hr
+      obtain ⟨k, v, e1, e2, e3, e4⟩ := peak_spec hrb h fr hi (hne hr)
+      exact ⟨k, v, e1, ⟨hp.subset e2, fun u hu => e4 u (hp.symm.subset hu)⟩, e3, ih h fr ref hi hp⟩
+    | clear =>
+      simp only [RadixRuns]
+      obtain ⟨i1, i2⟩ := init_rinv c hrb hrb6 hw
+      exact ih (RH.init c) none [] i1 (by rw [i2])
+
+/-- **the radix heap theorem**: for every key width ≤ 64, signed or unsigned, every radix `2^rb`
+(`1 ≤ rb ≤ 6`, `rb ≤ w`), every history of push/emplace/top/pop/swap_top_bucket/peak_top_key/clear
+in which no pushed key is below the key most recently reported by top/pop/swap_top_bucket runs
+without failure on a fresh heap; the reported elements are minima and the size is exact -/
+theorem radix_heap_correct (c : RCfg) (hrb : 0 < c.rb) (hrb6 : c.rb ≤ 6) (hle : c.rb ≤ c.w) (hw : c.w ≤ 64)
+    (ops : List (ROp c)) : RadixRuns c (RH.init c) none [] ops := by
+  obtain ⟨i1, i2⟩ := init_rinv c hrb hrb6 hw
+  exact radix_runs c hrb hrb6 hle hw ops _ none [] i1 (by rw [i2])
+
+-- non-vacuity: the harness configurations satisfy the hypotheses (Radix 64, 8-bit keys: rb = 6 ≤ w = 8)
+example : RadixRuns ⟨8, true, 6⟩ (RH.init ⟨8, true, 6⟩) none []
+    [.push 5#8 0, .push 0x80#8 1, .top, .pop, .push 5#8 2, .swap, .clear, .push 0xFF#8 3, .peak] :=
+  radix_heap_correct ⟨8, true, 6⟩ (by decide) (by decide) (by decide) (by decide) _
 
 end TlxVerif.C13
